@@ -231,6 +231,45 @@ def run_collisions(a):
     return {"viol": viol, "files": files, "n": len(pn)}
 
 
+VIS_FORMS = ["pub ", "", "pub(crate) ", "pub(super) ", "pub(in crate::models) "]
+
+
+def run_visibility(a):
+    """struct fields of every visibility (serde serialises private fields like public ones): the same keys in both modes, whatever the
+    includePrivate setting says about them"""
+    cli, k = a
+    import itertools
+    combo = list(itertools.product(range(len(VIS_FORMS)), repeat=3))[k % (len(VIS_FORMS) ** 3)]
+    fields = "".join("    %s%s: %s,\n" % (VIS_FORMS[v], nm, ty) for v, (nm, ty) in zip(combo, [("user_name", "String"), ("token", "Option<String>"), ("tags", "Vec<Named>")]))
+    src = (rg.PRELUDE + "use tauri::{AppHandle, Emitter};\n\n" + rg.struct_src("Named", [("a", "i32")]) + "#[derive(Serialize, Deserialize)]\n%sstruct Session {\n%s}\n\n" % (VIS_FORMS[k % 3], fields) +
+           rg.command_src("login", [("s", "Session")], "Session") + "pub fn expired(app: AppHandle, s: Session) {\n    app.emit(\"expired\", s).unwrap();\n}\n")
+    files = [("lib.rs", src)]
+    cfg = {"include_private": True} if k % 4 == 3 else None
+    keys = {}
+    for mode in ("none", "zod"):
+        g = proj.generate(cli, files, mode=mode, tag="c10v", config=cfg)
+        try:
+            if g.run.rc != 0 or g.output.mods.get("types.ts") is None:
+                return {"blocked": True}
+            if mode == "none":
+                it = g.output.interfaces().get("Session")
+                keys[mode] = sorted(m[1] for m in it["members"] if m[0] == "prop") if it else None
+            else:
+                ci = g.output.consts().get("SessionSchema")
+                try:
+                    s_ = sh.zod_shape(ci["init"]) if ci and ci["init"] is not None else None
+                    keys[mode] = sorted(p_[0] for p_ in s_[1]) if s_ and s_[0] == "obj" else None
+                except sh.ShapeError:
+                    keys[mode] = None
+        finally:
+            g.cleanup()
+    viol = []
+    if keys["none"] != keys["zod"]:
+        viol.append(("C10 struct-keys-differ field-visibility", "fields declared %s (include_private %s): plain mode has keys %s, the Zod schema has %s" % (
+            [VIS_FORMS[v].strip() or "private" for v in combo], bool(cfg), keys["none"], keys["zod"])))
+    return {"viol": viol, "files": files}
+
+
 def run_graph_names(a):
     """(a) on whole projects: the same type-dependency graph (roots incl. event payloads, channels, nested event-only types) must declare
     the same set of project types and of parameter objects in both modes"""
@@ -370,6 +409,16 @@ def run(tier):
             continue
         v.case(("colliding-command-names", job[1]), nontrivial=True)
         v.count("colliding_name_projects_compared")
+        for (sig, what) in r["viol"]:
+            v.violation(sig, what, proj.witness_of(r["files"], "both"))
+    vjobs = [(cli, k_) for k_ in (range(common.seed() % 3, 125, 3) if tier == "quick" else range(250))]
+    for (job, r) in zip(vjobs, common.pmap(run_visibility, vjobs, chunksize=4)):
+        if "blocked" in r:
+            v.blocked += 1
+            v.evaluations += 1
+            continue
+        v.case(("visibility", job[1]), nontrivial=True)
+        v.count("field_visibility_combinations")
         for (sig, what) in r["viol"]:
             v.violation(sig, what, proj.witness_of(r["files"], "both"))
     gjobs = [(cli, i, common.seed() * 100003 + i) for i in range(200 if tier == "quick" else 3000)]
